@@ -160,10 +160,10 @@ impl World {
             children[pi - 1].push(i);
         }
         // children are attached through with_child / add_child / with_children / add_children in turn
-        fn assemble(i: usize, b: &mut Vec<Option<InstanceBuilder>>, ch: &Vec<Vec<usize>>) -> InstanceBuilder {
+        fn assemble(i: usize, b: &mut Vec<Option<InstanceBuilder>>, ch: &Vec<Vec<usize>>, salt: usize) -> InstanceBuilder {
             let mut ib = b[i].take().unwrap();
-            let kids: Vec<InstanceBuilder> = ch[i].iter().map(|&c| assemble(c, b, ch)).collect();
-            match (i + kids.len()) % 4 {
+            let kids: Vec<InstanceBuilder> = ch[i].iter().map(|&c| assemble(c, b, ch, salt)).collect();
+            match (i + kids.len() + salt) % 6 {
                 0 => {
                     for k in kids {
                         ib.add_child(k);
@@ -175,11 +175,27 @@ impl World {
                     }
                 }
                 2 => ib = ib.with_children(kids),
-                _ => ib.add_children(kids),
+                3 => ib.add_children(kids),
+                4 => {
+                    // one child first, the rest as one batch
+                    let mut it = kids.into_iter();
+                    if let Some(first) = it.next() {
+                        ib = ib.with_child(first);
+                    }
+                    ib = ib.with_children(it.collect::<Vec<_>>());
+                }
+                _ => {
+                    // two batches
+                    let mut kids = kids;
+                    let rest = kids.split_off(kids.len() / 2);
+                    ib.add_children(kids);
+                    ib = ib.with_children(rest);
+                }
             }
             ib
         }
-        assemble(0, &mut builders, &children)
+        let salt = nodes[0]["label"].as_i64().unwrap_or(0).rem_euclid(6) as usize;
+        assemble(0, &mut builders, &children, salt)
     }
 
     fn project(&mut self) -> Value {
@@ -529,7 +545,12 @@ fn random_steps(w: &mut World, rng: &mut StdRng, steps: usize, uid_pool: i64, la
             let room = max_ref as i64 - w.refs.len() as i64;
             let choice = rng.gen_range(0..100);
             let op = if choice < 25 && room >= 1 {
-                let b = random_builder(w, rng, lab, (room as usize).min(4), uid_pool);
+                // now and then a builder with many children under one node (6-7), the others small
+                let b = if room >= 8 && rng.gen_bool(0.12) {
+                    { let n = rng.gen_range(7..=8); wide_builder(w, rng, lab, n, uid_pool) }
+                } else {
+                    random_builder(w, rng, lab, (room as usize).min(4), uid_pool)
+                };
                 lab += 10;
                 let p = if rng.gen_range(0..10) == 0 { 0 } else { live[rng.gen_range(0..live.len())] };
                 json!({"op": "insert", "d": d + 1, "p": p, "b": b})
@@ -604,8 +625,21 @@ fn random_steps(w: &mut World, rng: &mut StdRng, steps: usize, uid_pool: i64, la
     *lab_ref = lab;
 }
 
+/// A root with n-1 leaf children.
+fn wide_builder(w: &World, rng: &mut StdRng, label_base: i64, n: usize, uid_pool: i64) -> Value {
+    let mut b = random_builder_exact(w, rng, label_base, n, uid_pool);
+    for (i, node) in b.as_array_mut().unwrap().iter_mut().enumerate() {
+        node["pi"] = json!(if i == 0 { 0 } else { 1 });
+    }
+    b
+}
+
 fn random_builder(w: &World, rng: &mut StdRng, label_base: i64, max_nodes: usize, uid_pool: i64) -> Value {
     let n = rng.gen_range(1..=max_nodes);
+    random_builder_exact(w, rng, label_base, n, uid_pool)
+}
+
+fn random_builder_exact(w: &World, rng: &mut StdRng, label_base: i64, n: usize, uid_pool: i64) -> Value {
     let base = w.next_ref() as i64;
     let mut nodes = Vec::new();
     let mut pis: Vec<i64> = vec![0];
